@@ -314,9 +314,11 @@ class SSH_Socket(ReadBuf, WriteBuf):
             payload = payload[1:]
             return packet_type, payload
         except SSH_Socket.InsufficientReadException as ex:
-            if ex.args[0] is None:
-                header.write(self.read(self.unread_len))
-                e = header.write_flush().strip()
+            header.write(self.read(self.unread_len))
+            received = header.write_flush().strip()
+            # A server that only speaks SSHv1 says so and hangs up.  Our KEXINIT is usually still unread on its side at that moment, so the hang-up reaches us as a connection reset rather than a clean close; what it said still counts.
+            if ex.args[0] is None or received == b'Protocol major versions differ.':
+                e = received
             else:
                 e = ex.args[0].encode('utf-8')
             return -1, e
